@@ -22,6 +22,9 @@ FAMILIES = {
     "workflow": ("grow_workflow", "whole system: clusters of real app.Run nodes (QBFT over libp2p, validator mocks) under faults, every core.Wire edge call on every node trace-validated against the composed workflow (value flow, causal order, C01 one root per duty and validator)"),
     "eth2wrap": ("grow_eth2wrapx", "app/eth2wrap: synthetic proposer duties/proposals + their cache (synthproposer.go), lazy connect-on-first-use client (lazy.go), ValidatorCache (cache.go); real wrappers over gated beaconmock under synctest"),
     "p2psender": ("grow_p2psender", "p2p sender/receive/gater/relay: SendReceive/SendAsync/Send + relay retry, per-peer failure hysteresis and its log lines, RegisterHandler per-stream handling, ConnGater, relay reserver/router with expbackoff (mocknet + synctest)"),
+    "appstate": ("grow_appstate", "app/privkeylock (key-file lock protocol), app/monitoringapi.go readiness checker, app/health checks over scraped metrics, app/peerinfo exchange: four machines in virtual time"),
+    "consensusctl": ("grow_consensusctl", "core/consensus: consensusController + consensusWrapper (protocol switch, subscribers), qbft component instance IO life-cycle (Participate / Propose / deadliner delete), debugger ring, protocol id parsing"),
+    "exitflow": ("grow_exitflow", "cmd exit sign / fetch / broadcast / delete / list + app/obolapi exit client against a scripted Obol API: threshold of distinct shares, message match, aggregate verification, authorisation of deletes"),
     "retry": ("grow_retry", "app/retry + core/retry.go: backoff, duty-deadline context, error classes, Shutdown accounting, wired edges"),
 }
 
